@@ -218,7 +218,7 @@ def copies_and_pickles_native(B):
             c = s.copy() if how == "copy" else pickle.loads(pickle.dumps(s))
         except Exception as ex:
             if how == "pickle":
-                continue         # reported by sequential_pickle_round_trip_native (known finding C20-sequential-pickle)
+                continue         # reported by sequential_pickle_round_trip_native
             raise
         if set(native_footprint(s)) & set(native_footprint(c)):
             B.fail(f"Sequential {how} shares mutable state with the original", {})
@@ -392,7 +392,7 @@ def portable_round_trip_of_stochastic_models_native(B):
 
 @bounded("C20", bound="one Sequential model (a transform and an identity), standard pickle and dill")
 def sequential_pickle_round_trip_native(B):
-    """Known finding C20-sequential-pickle (standard pickle); dill must round-trip and simulate identically."""
+    """Standard pickle and dill round-trip a Sequential model, and the result simulates identically."""
     import pickle
     s = ir.Sequential.from_string("!equations\n diff_log(x) = 0.5*y;\n z === x + 1;\n")
     span = ir.qq(2020, 1) >> ir.qq(2020, 4)
@@ -554,3 +554,47 @@ def forward_expansion_cache_keeps_its_invariant(K, cached, forward):
     for k in range(min(len(after), len(want))):
         for i in range(n):
             K.ensure(f"cache invariant after the call: entry {k}, row {i}", K.real_eq(val(after[k], i, 0), want[k][i][0]))
+
+
+# ------------------------------------------------------------------------------ pickled state of an Explanatory
+from irispie.explanatories import main as XM
+
+
+@contract("C20", targets=["irispie.explanatories.main:Explanatory.__getstate__", "irispie.explanatories.main:Explanatory.__setstate__",
+                          "irispie.makers:_prepare_globals"] if hasattr(XM.Explanatory, "__getstate__") else [],
+          instances=[("diff_log(x) = 0.5*y + a;",), ("z === x + 1;",), ("x = 0.8*x[-1] + a;",)] if hasattr(XM.Explanatory, "__getstate__") else [],
+          cross=2, opts={"max_paths": 400})
+def explanatory_state_round_trip_recreates_the_evaluators(K, equation):
+    """What pickle and deepcopy do with an equation of a Sequential model: __getstate__ hands over everything but the two
+    exec()-made functions, __setstate__ on a blank instance restores it and re-creates them - the restored evaluators
+    return, on ARBITRARY data, what the originals return, and no other slot is lost."""
+    native = ir.Sequential.from_string("!equations\n " + equation + "\n")._invariant.explanatories[0]
+    K.register_source(native.eval_level, native._eval_level_str, "Explanatory.eval_level")
+    if native.eval_residual is not None:
+        K.register_source(native.eval_residual, native._eval_residual_str, "Explanatory.eval_residual")
+    e = K.lift(native)
+    state = K.method(e, "__getstate__")
+    K.ensure("the state holds no function", K.index(state, "eval_level") is None and K.index(state, "eval_residual") is None)
+    K.ensure("the original keeps its evaluators", K.attr(e, "eval_level") is not None)
+    back = K.obj(XM.Explanatory)
+    K.method(back, "__setstate__", state)
+    for slot in ("lhs_name", "residual_name", "lhs_qid", "is_identity", "_rhs_human", "_lhs_human", "_eval_level_str", "_eval_residual_str", "all_names"):
+        K.ensure(f"slot {slot} restored", K.getattr(back, slot) == K.getattr(e, slot))
+    nrows = len(native.all_names)
+    cols = K.int("cols", 3, None, sample=(3, 6))
+    t = K.int("t", 1, None, sample=(1, 5))
+    K.assume(t < cols)
+    X = K.array("X", (nrows, cols), nan=False)
+    if "log" in equation:
+        K.assume(K.cell_val(K.cell(X, native.lhs_qid, t - 1)) > 0)
+    lvl0 = K.call(K.attr(e, "eval_level"), X, t)
+    lvl1 = K.call(K.attr(back, "eval_level"), X, t)
+    K.ensure("the re-created level evaluator is a function of its own", K.attr(back, "eval_level") is not None)
+    K.ensure("the re-created level evaluator returns what the original returns", K.real_eq(lvl1, lvl0))
+    if native.eval_residual is not None:
+        if "log" in equation:
+            K.assume(K.cell_val(K.cell(X, native.lhs_qid, t)) > 0)
+        K.ensure("the re-created residual evaluator returns what the original returns",
+                 K.real_eq(K.call(K.attr(back, "eval_residual"), X, t), K.call(K.attr(e, "eval_residual"), X, t)))
+    else:
+        K.ensure("an identity has no residual evaluator, before and after", K.getattr(back, "eval_residual") is None)
